@@ -172,6 +172,46 @@ impl Roll for FixedWindowRoller {
     }
 }
 
+/// Verification hooks (only with `--cfg log4rs_verif`): a process-global callback
+/// invoked before every filesystem step of a rotation.
+#[cfg(log4rs_verif)]
+#[allow(missing_docs)]
+pub mod verif {
+    use std::{io, sync::Mutex};
+
+    /// Called with ("shift", i) before archive i is moved to i + 1 and with
+    /// ("final", base) before the rolled file is moved or compressed into place.
+    /// Returning an error makes the rotation fail at exactly that step.
+    pub type StepCallback = Box<dyn Fn(&str, u32) -> io::Result<()> + Send + Sync>;
+
+    static CALLBACK: Mutex<Option<StepCallback>> = Mutex::new(None);
+
+    pub fn set_step_callback(callback: Option<StepCallback>) {
+        *CALLBACK.lock().unwrap_or_else(|e| e.into_inner()) = callback;
+    }
+
+    pub(super) fn step(kind: &str, index: u32) -> io::Result<()> {
+        match *CALLBACK.lock().unwrap_or_else(|e| e.into_inner()) {
+            Some(ref callback) => callback(kind, index),
+            None => Ok(()),
+        }
+    }
+}
+
+#[cfg(all(log4rs_verif, feature = "background_rotation"))]
+#[allow(missing_docs)]
+impl FixedWindowRoller {
+    /// Blocks until no background rotation is in flight.
+    pub fn verif_wait_idle(&self) {
+        loop {
+            if *self.cond_pair.0.lock() {
+                return;
+            }
+            std::thread::sleep(std::time::Duration::from_micros(200));
+        }
+    }
+}
+
 fn move_file<P, Q>(src: P, dst: Q) -> io::Result<()>
 where
     P: AsRef<Path>,
@@ -240,9 +280,13 @@ fn rotate(
             }
         }
 
+        #[cfg(log4rs_verif)]
+        verif::step("shift", i)?;
         move_file(src.as_ref(), dst.as_ref())?;
     }
 
+    #[cfg(log4rs_verif)]
+    verif::step("final", base)?;
     compression.compress(&file, &dst_0).map_err(|e| {
         println!("err compressing: {:?}, dst: {:?}", file, dst_0);
         e
